@@ -26,5 +26,9 @@ package alert
 //@   ensures [timeout-end-never-extends-firing] elder(a, o).Timeout && younger(a, o).EndsAt == 0 ==> result.EndsAt == younger(a, o).EndsAt
 //@   ensures [explicit-later-end-wins-while-firing] !elder(a, o).Timeout && elder(a, o).EndsAt > younger(a, o).EndsAt && (younger(a, o).EndsAt == 0 || younger(a, o).EndsAt > clock())
 //@             ==> result.EndsAt == elder(a, o).EndsAt
+//@   ensures [both-resolved-latest-end-wins] younger(a, o).EndsAt != 0 && younger(a, o).EndsAt <= old(clock()) && elder(a, o).EndsAt != 0 && elder(a, o).EndsAt <= old(clock())
+//@             && elder(a, o).EndsAt > younger(a, o).EndsAt ==> result.EndsAt == elder(a, o).EndsAt
+//@   ensures [resolved-younger-not-reopened-by-firing-elder] younger(a, o).EndsAt != 0 && younger(a, o).EndsAt <= old(clock()) && (elder(a, o).EndsAt == 0 || elder(a, o).EndsAt > clock())
+//@             ==> result.EndsAt == younger(a, o).EndsAt
 //@   ensures [inputs-untouched] a.StartsAt == old(a.StartsAt) && a.EndsAt == old(a.EndsAt) && o.StartsAt == old(o.StartsAt) && o.EndsAt == old(o.EndsAt)
 //@   assigns nothing
